@@ -26,8 +26,8 @@ from harness.trace import Run
 
 PROP = "C16"
 THEOREMS = ["Lbfgsb.C16.stencil_in_box_1sided", "Lbfgsb.C16.stencil_in_box_2sided", "Lbfgsb.C16.fd_points_in_box", "Lbfgsb.C16.clip_is_identity_exact",
-            "Lbfgsb.C16.fd_counts", "Lbfgsb.C16.fixed_component_zero"]
-MODULES = ["LbfgsbVerif.Props.C16"]
+            "Lbfgsb.C16.fd_counts", "Lbfgsb.C16.fixed_component_zero", "Lbfgsb.C16.evals_in_box_fd"]
+MODULES = ["LbfgsbVerif.Props.C16", "LbfgsbVerif.Props.C16Run"]
 MODES = ["none", "2-point", "3-point", "cs"]
 
 
